@@ -354,3 +354,97 @@ Proof.
     destruct (Sim_dget _ _ _ _ HS E1) as (c2 & E2 & HS2).
     exists c2. cbn [dget]. rewrite Ec. split; [exact E2|eapply Sim_trans; eauto].
 Qed.
+
+(* ---------- where the keys of the result come from (C08: no new path without permission) ---------- *)
+Lemma ahas_aset {V} k k' (v : V) l : ahas k (aset k' v l) = true -> k = k' \/ ahas k l = true.
+Proof.
+  intro H. destruct (key_eqb k k') eqn:E; [left; now apply key_eqb_eq|right].
+  unfold ahas in *. now rewrite aget_aset_neq in H by exact E.
+Qed.
+
+Lemma ahas_adel {V} k k' (l : list (key * V)) : ahas k (adel k' l) = true -> ahas k l = true.
+Proof.
+  unfold ahas. induction l as [|[k2 v2] r IH]; cbn; [auto|].
+  destruct (key_eqb k' k2) eqn:E; cbn.
+  - intro H. destruct (key_eqb k k2); [reflexivity|exact H].
+  - destruct (key_eqb k k2); auto.
+Qed.
+
+Section KeysRules.
+  Variable rec : path -> node -> node -> res (node * who).
+  Variable als : list path.
+
+  Lemma step_keys p f x ch k' v cur' : merge_step rec als p (Ok (Comp CDict f x ch)) (k', v) = Ok cur' ->
+    exists ch', cur' = Comp CDict f x ch' /\
+      forall k, ahas k ch' = true -> ahas k ch = true \/ (k = k' /\ require_all_new v (p ++ [k']) [] true = true).
+  Proof.
+    intro H. unfold merge_step in H. cbn [bind get_child is_listk] in H. destruct (aget k' ch) as [c0|] eqn:Ea.
+    - assert (Hk' : ahas k' ch = true) by (unfold ahas; now rewrite Ea).
+      assert (Hs : (exists n, set_child (Comp CDict f x ch) k' n = Some cur') \/ (exists n, cur' = put_child (Comp CDict f x ch) k' n) \/
+                   remove_child (Comp CDict f x ch) k' = Some cur').
+      { apply (step_shape rec als p _ k' v). unfold merge_step. cbn [bind get_child is_listk]. rewrite Ea. exact H. }
+      destruct Hs as [(n & Hs)|[(n & Hs)|Hs]]; cbn in Hs.
+      + inversion Hs; subst. eexists. split; [reflexivity|]. intros k Hk. left. destruct (ahas_aset _ _ _ _ Hk) as [->|]; auto.
+      + subst. eexists. split; [reflexivity|]. intros k Hk. left. destruct (ahas_aset _ _ _ _ Hk) as [->|]; auto.
+      + destruct (ahas k' ch); [|discriminate]. inversion Hs; subst. eexists. split; [reflexivity|]. intros k Hk. left. exact (ahas_adel _ _ _ Hk).
+    - destruct (require_all_new v (p ++ [k']) [] true) eqn:Er; [|discriminate]. cbn [set_child is_listk] in H. inversion H; subst.
+      eexists. split; [reflexivity|]. intros k Hk. destruct (ahas_aset _ _ _ _ Hk) as [->|]; auto.
+  Qed.
+
+  Lemma steps_keys p : forall cho f x ch s2, fold_left (merge_step rec als p) cho (Ok (Comp CDict f x ch)) = Ok s2 ->
+    exists ch2, s2 = Comp CDict f x ch2 /\
+      forall k, ahas k ch2 = true -> ahas k ch = true \/ exists v, In (k, v) cho /\ require_all_new v (p ++ [k]) [] true = true.
+  Proof.
+    induction cho as [|[k' v] rest IH]; intros f x ch s2 H.
+    - cbn in H. inversion H; subst. eexists. split; [reflexivity|auto].
+    - cbn [fold_left] in H.
+      destruct (merge_step rec als p (Ok (Comp CDict f x ch)) (k', v)) as [cur'|e q] eqn:Es; [|rewrite fold_merge_step_err in H; discriminate].
+      destruct (step_keys _ _ _ _ _ _ _ Es) as (ch' & -> & Hk1). destruct (IH _ _ _ _ H) as (ch2 & -> & Hk2).
+      exists ch2. split; [reflexivity|]. intros k Hk. destruct (Hk2 k Hk) as [Hin|(v' & Hin & Hr)].
+      + destruct (Hk1 k Hin) as [Ho|[-> Hr]]; [left; exact Ho|right; exists v; split; [now left|exact Hr]].
+      + right. exists v'. split; [now right|exact Hr].
+  Qed.
+
+  Lemma finish_dict_keys fs xs ch2 fo xo cho r pr :
+    (if has_priority_over (Comp CDict fo xo cho) (Comp CDict fs xs ch2) true
+     then replace_self (Comp CDict fs xs ch2) (Comp CDict fo xo cho) true
+     else replace_other (Comp CDict fs xs ch2) (Comp CDict fo xo cho) true) = (r, pr) ->
+    exists f' ch', r = Comp CDict f' xs ch' /\ forall k, ahas k ch' = ahas k ch2.
+  Proof.
+    intro H. destruct (has_priority_over (Comp CDict fo xo cho) (Comp CDict fs xs ch2) true).
+    - unfold replace_self in H. cbn [with_flags nflags maybe_promote ckind_eqb fst snd] in H. unfold propagate in H. cbn [nflags] in H.
+      rewrite prop_as_comp in H. destruct (prop_stops (become fs fo)); inversion H; subst; do 2 eexists; (split; [reflexivity|]); [reflexivity|].
+      intro k. unfold ahas. rewrite aget_map. destruct (aget k ch2); reflexivity.
+    - unfold replace_other in H. cbn [with_flags nflags maybe_promote ckind_eqb fst snd] in H. inversion H; subst. do 2 eexists. split; reflexivity.
+  Qed.
+
+  Lemma comp_merge_keys p fs xs chs fo xo cho r w :
+    delete (Comp CDict fo xo cho) = false ->
+    comp_merge rec als p (Comp CDict fs xs chs) (Comp CDict fo xo cho) = Ok (r, w) ->
+    exists f' ch', r = Comp CDict f' xs ch' /\
+      forall k, ahas k ch' = true -> ahas k chs = true \/ exists v, In (k, v) cho /\ require_all_new v (p ++ [k]) [] true = true.
+  Proof.
+    intros Hd H. unfold comp_merge, prune in H. rewrite Hd in H.
+    destruct (fold_left (merge_step rec als p) cho (Ok (Comp CDict fs xs chs))) as [s2|e q] eqn:Ef; cbn [bind] in H; [|discriminate].
+    destruct (steps_keys _ _ _ _ _ _ Ef) as (ch2 & -> & Hk).
+    destruct (if has_priority_over (Comp CDict fo xo cho) (Comp CDict fs xs ch2) true then _ else _) as [r0 pr] eqn:Efin.
+    inversion H; subst r0. destruct (finish_dict_keys _ _ _ _ _ _ _ _ Efin) as (f' & ch' & -> & Hsame).
+    exists f', ch'. split; [reflexivity|]. intros k Hk'. apply Hk. now rewrite <- Hsame.
+  Qed.
+End KeysRules.
+
+(* every key of the merged mapping is a key of the older mapping, or a key of the newer one whose whole value allows new paths *)
+Theorem merge_no_new_key_without_permission als fuel p fs xs chs fo xo cho r w :
+  delete (Comp CDict fo xo cho) = false ->
+  on_merge als (S fuel) p (Comp CDict fs xs chs) (Comp CDict fo xo cho) = Ok (r, w) ->
+  exists f' ch', r = Comp CDict f' xs ch' /\
+    forall k, ahas k ch' = true -> ahas k chs = true \/ exists v, In (k, v) cho /\ require_all_new v (p ++ [k]) [] true = true.
+Proof. intros Hd H. cbn [on_merge dispatch is_funck is_listk] in H. exact (comp_merge_keys _ _ _ _ _ _ _ _ _ _ _ Hd H). Qed.
+
+(* the permission covers every node of the value, the value itself included: a !notnew anywhere in it forbids the new key *)
+Lemma require_all_new_nodes n p : require_all_new n p [] true = true -> forall q m, In (q, m) (nwp p n) -> allow_new (nflags m) = true.
+Proof.
+  unfold require_all_new. intros H q m Hin.
+  assert (Hl : (match n with Leaf _ _ _ => [(p, n)] | Comp _ _ _ _ => nodes_with_paths p n true end) = nwp p n) by (destruct n; reflexivity).
+  rewrite Hl in H. rewrite forallb_forall in H. specialize (H _ Hin). cbn [fst snd path_in existsb] in H. now rewrite Bool.orb_false_r in H.
+Qed.
